@@ -72,6 +72,11 @@ def generate(tier, rng):
                 if len(keysets) > 40 and not thorough:
                     keysets = rng.sample(keysets, 40)
                 yield {'suite': NAME, 'op': 'specbind', 'method': m, 'keysets': keysets, 'tag': 'specbind'}
+                # behind an ordinary functools.wraps decorator / with defaults that are not JSON values
+                if not view and (thorough or rng.random() < 0.3):
+                    yield {'suite': NAME, 'op': 'specbind', 'method': dict(m, deco=True), 'keysets': keysets, 'tag': 'specbind-deco'}
+                if any(p['d'] for p in sig) and (thorough or rng.random() < 0.3):
+                    yield {'suite': NAME, 'op': 'specbind', 'method': dict(m, objdefault=True), 'keysets': keysets, 'tag': 'specbind-objdefault'}
                 # the type validator on the binding side (one validator object for all methods, as an application has)
                 if not view and (thorough or rng.random() < 0.4):
                     yield {'suite': NAME, 'op': 'specbind', 'method': m, 'keysets': keysets, 'tag': 'specbind-pydantic', 'validator': 'pydantic'}
@@ -86,6 +91,7 @@ def generate(tier, rng):
 
 _OBJS = {}
 _PYD = {}
+_SENTINEL = object()
 
 
 def _pydantic_validator(excluded):
@@ -103,8 +109,15 @@ def build(c):
     excluded = m.get('excluded') or []
     pred = (lambda name, ann, default: name in excluded) if excluded else None
     view = bool(m.get('view'))
-    obj = S.make_callable('specbind:' + key[:60], m['sig'], False, view, fresh=True)
+    obj = S.make_callable('specbind:' + key[:60], m['sig'], False, view, fresh=True, deco=bool(m.get('deco')))
     target = obj.vm if view else obj
+    if m.get('objdefault'):
+        # defaults that are not JSON values (a sentinel object): optional all the same
+        raw = getattr(target, '__wrapped__', target)
+        if raw.__defaults__:
+            raw.__defaults__ = tuple(_SENTINEL for _ in raw.__defaults__)
+        if raw.__kwdefaults__:
+            raw.__kwdefaults__ = {k: _SENTINEL for k in raw.__kwdefaults__}
     if c.get('validator') == 'pydantic':
         _pydantic_validator(tuple(excluded)).validate(target)
     elif pred:
